@@ -9,14 +9,14 @@ open CelmaVerif CelmaVerif.Keys
 
 /-! ### result algebra -/
 
-theorem bind_eq_ok {α β : Type} {r : Res α} {f : α → Res β} {b : β} :
+theorem bind_eq_ok_g {α β : Type} {r : Res α} {f : α → Res β} {b : β} :
     (r >>= f) = .ok b ↔ ∃ a, r = .ok a ∧ f a = .ok b := by
   cases r with
   | ok a => simp
   | throw e => simp
   | oob w => simp
 
-theorem throwIf_eq_ok {c : Bool} {e : Exc} : throwIf c e = .ok () ↔ c = false := by
+theorem throwIf_eq_ok_g {c : Bool} {e : Exc} : throwIf c e = .ok () ↔ c = false := by
   unfold throwIf; cases c <;> simp
 
 theorem throwIf_false (e : Exc) : throwIf false e = .ok () := rfl
@@ -27,16 +27,16 @@ theorem throwIf_true (e : Exc) : throwIf true e = .throw e := rfl
 theorem memberEndChecks_ok_iff (c : Cfg) (h : HState) :
     memberEndChecks c h = .ok () ↔
       checkMandatoryCardinality c.args h.args = .ok () ∧ pendingCheckRequired h.pending = .ok () ∧
-      checkGlobals c.globals h.globals = .ok () := by
+      checkGlobals c.args h.args c.globals h.globals = .ok () := by
   unfold memberEndChecks
-  rw [bind_eq_ok]
+  rw [bind_eq_ok_g]
   constructor
   · rintro ⟨⟨⟩, h1, h2⟩
-    rw [bind_eq_ok] at h2
+    rw [bind_eq_ok_g] at h2
     obtain ⟨⟨⟩, h2, h3⟩ := h2
     exact ⟨h1, h2, h3⟩
   · rintro ⟨h1, h2, h3⟩
-    exact ⟨(), h1, by rw [bind_eq_ok]; exact ⟨(), h2, h3⟩⟩
+    exact ⟨(), h1, by rw [bind_eq_ok_g]; exact ⟨(), h2, h3⟩⟩
 
 theorem groupsEndChecks_ok_iff (ms : List (Cfg × HState)) :
     groupsEndChecks ms = .ok () ↔ ∀ m ∈ ms, memberEndChecks m.1 m.2 = .ok () := by
@@ -44,7 +44,7 @@ theorem groupsEndChecks_ok_iff (ms : List (Cfg × HState)) :
   | nil => simp [groupsEndChecks]
   | cons m ms ih =>
     obtain ⟨c, h⟩ := m
-    simp only [groupsEndChecks, bind_eq_ok, List.mem_cons, forall_eq_or_imp]
+    simp only [groupsEndChecks, bind_eq_ok_g, List.mem_cons, forall_eq_or_imp]
     rw [← ih]
     constructor
     · rintro ⟨⟨⟩, h1, h2⟩; exact ⟨h1, h2⟩
@@ -60,7 +60,7 @@ theorem groupsEval_ok_iff (cfg : Cfg) (inits : List DVal) (am gm order : List Na
           = .ok ms ∧
         groupsEndChecks ms = .ok () := by
   unfold groupsEval
-  simp only [bind_eq_ok, Res.pure_eq, Res.ok.injEq]
+  simp only [bind_eq_ok_g, Res.pure_eq, Res.ok.injEq]
   constructor
   · rintro ⟨⟨⟩, h0, ai, h1, ms', h2, ⟨⟩, h3, rfl⟩
     exact ⟨(by intro h; rw [h] at h0; cases h0), ai, h1, h2, h3⟩
@@ -74,7 +74,7 @@ theorem groupsEval_ok_iff (cfg : Cfg) (inits : List DVal) (am gm order : List Na
 theorem groupsEval_end_checks (cfg : Cfg) (inits : List DVal) (am gm order : List Nat) (argv : List Word)
     (ms : List (Cfg × HState)) (h : groupsEval cfg inits am gm order argv = .ok ms) :
     ∀ m ∈ ms, checkMandatoryCardinality m.1.args m.2.args = .ok () ∧ pendingCheckRequired m.2.pending = .ok () ∧
-      checkGlobals m.1.globals m.2.globals = .ok () := by
+      checkGlobals m.1.args m.2.args m.1.globals m.2.globals = .ok () := by
   obtain ⟨_, ai, _, _, h3⟩ := (groupsEval_ok_iff cfg inits am gm order argv ms).mp h
   intro m hm
   exact (memberEndChecks_ok_iff m.1 m.2).mp ((groupsEndChecks_ok_iff ms).mp h3 m hm)
@@ -85,7 +85,7 @@ theorem endChecks_ok_iff (cfg : Cfg) (h h' : HState) :
       h' = { h with lastArg := none } ∧ memberEndChecks cfg h = .ok () := by
   rw [memberEndChecks_ok_iff]
   unfold endChecks
-  simp only [bind_eq_ok, Res.pure_eq, Res.ok.injEq]
+  simp only [bind_eq_ok_g, Res.pure_eq, Res.ok.injEq]
   constructor
   · rintro ⟨⟨⟩, h1, ⟨⟩, h2, ⟨⟩, h3, rfl⟩; exact ⟨rfl, h1, h2, h3⟩
   · rintro ⟨rfl, h1, h2, h3⟩; exact ⟨(), h1, (), h2, (), h3, rfl⟩
@@ -98,7 +98,7 @@ theorem processArg_result (cfg : Cfg) (h : HState) (key : Key) (ai : It) (h' : H
     (he : processArg cfg h key ai = .ok (h', ai', r)) :
     (r = .unknown ∧ ai' = ai ∧ h' = { h with lastArg := none }) ∨ r = .consumed := by
   unfold processArg at he
-  rw [bind_eq_ok] at he
+  rw [bind_eq_ok_g] at he
   obtain ⟨found, _, he⟩ := he
   cases found with
   | none =>
@@ -110,20 +110,20 @@ theorem processArg_result (cfg : Cfg) (h : HState) (key : Key) (ai : It) (h' : H
     right
     dsimp only at he
     split at he
-    · rw [bind_eq_ok] at he
+    · rw [bind_eq_ok_g] at he
       obtain ⟨_, _, he⟩ := he
       simp only [Res.pure_eq, Res.ok.injEq, Prod.mk.injEq] at he
       exact he.2.2.symm
-    · rw [bind_eq_ok] at he
+    · rw [bind_eq_ok_g] at he
       obtain ⟨ait2, _, he⟩ := he
       split at he
       · split at he
-        · rw [bind_eq_ok] at he
+        · rw [bind_eq_ok_g] at he
           obtain ⟨_, _, he⟩ := he
           simp only [Res.pure_eq, Res.ok.injEq, Prod.mk.injEq] at he
           exact he.2.2.symm
         · cases he
-      · rw [bind_eq_ok] at he
+      · rw [bind_eq_ok_g] at he
         obtain ⟨_, _, he⟩ := he
         simp only [Res.pure_eq, Res.ok.injEq, Prod.mk.injEq] at he
         exact he.2.2.symm
@@ -138,7 +138,7 @@ theorem evalSingleArgument_result (cfg : Cfg) (h : HState) (ai : It) (h' : HStat
   · rcases processArg_result _ _ _ _ _ _ _ he with ⟨h1, h2, _⟩ | h1
     · exact Or.inl ⟨h1, h2⟩
     · exact Or.inr h1
-  · rw [bind_eq_ok] at he
+  · rw [bind_eq_ok_g] at he
     obtain ⟨key, _, he⟩ := he
     rcases processArg_result _ _ _ _ _ _ _ he with ⟨h1, h2, _⟩ | h1
     · exact Or.inl ⟨h1, h2⟩
@@ -150,11 +150,11 @@ theorem evalSingleArgument_result (cfg : Cfg) (h : HState) (ai : It) (h' : HStat
       exact Or.inr he.2.2.symm
   · dsimp only at he
     split at he
-    · rw [bind_eq_ok] at he
+    · rw [bind_eq_ok_g] at he
       obtain ⟨_, _, he⟩ := he
       simp only [Res.pure_eq, Res.ok.injEq, Prod.mk.injEq] at he
       exact Or.inr he.2.2.symm
-    · rw [bind_eq_ok] at he
+    · rw [bind_eq_ok_g] at he
       obtain ⟨found, _, he⟩ := he
       cases found with
       | none =>
@@ -163,7 +163,7 @@ theorem evalSingleArgument_result (cfg : Cfg) (h : HState) (ai : It) (h' : HStat
       | some p =>
         obtain ⟨i, d⟩ := p
         dsimp only at he
-        rw [bind_eq_ok] at he
+        rw [bind_eq_ok_g] at he
         obtain ⟨_, _, he⟩ := he
         simp only [Res.pure_eq, Res.ok.injEq, Prod.mk.injEq] at he
         exact Or.inr he.2.2.symm
